@@ -36,8 +36,123 @@ def socket_fault_probe(fault, then):
     return simnet.run(go)
 
 
+def handshake_loss_probe(noise, stage, exc_kind):
+    """The transport is lost while the connect phase waits for the device (Noise hello / handshake, or the hello response),
+    with the OS error the kernel reports for it - a reset, a timed-out connection (ETIMEDOUT is TimeoutError), a broken pipe, or none.
+    When everything has settled the connection is closed and no timer of it is still armed. Returns (outcome, closed, armed timers)."""
+    import asyncio
+    from vlib import conntrace, noisesim, simnet
+
+    async def go(loop):
+        from aioesphomeapi import api_pb2 as pb
+        from aioesphomeapi.connection import APIConnection, ConnectionParams, ConnectionState as S
+        from aioesphomeapi.zeroconf import ZeroconfManager
+        net = simnet.Net(loop)
+        psk = bytes(range(1, 33))
+        params = ConnectionParams(addresses=["10.0.0.1"], port=6053, password=None, client_info="v", keepalive=20.0,
+                                  zeroconf_manager=ZeroconfManager(), noise_psk=noisesim.b64(psk) if noise else None, expected_name=None)
+        conn = APIConnection(params, lambda e: None, False, None)
+        exc = {"reset": ConnectionResetError(104, "reset"), "timedout": TimeoutError(110, "Connection timed out"),
+               "pipe": BrokenPipeError(32, "broken pipe"), "none": None}[exc_kind]
+        with net.patched():
+            await conn.start_connection()
+            task = asyncio.ensure_future(conn.finish_connection(login=False))
+            await simnet.drain(loop)
+            tr = net.transports[-1]
+            if noise and stage == "handshake":
+                tr.feed(noisesim.Responder(psk, b"dev").hello_frame())
+                await simnet.drain(loop)
+            tr.lose(exc)
+            await simnet.drain(loop)
+            if task.done():
+                out = "C" if task.cancelled() else "ok" if task.exception() is None else conntrace.exc_name(task.exception())
+            else:
+                out = "pending"
+                task.cancel()
+            await simnet.drain(loop)
+            timers = [name for _, name in loop.armed_timers()]
+            closed = conn.connection_state is S.CLOSED
+            conn.force_disconnect()
+            await simnet.drain(loop)
+        return out, closed, timers
+    return simnet.run(go)
+
+
+def resolve_close_probe(n_addresses, how):
+    """The connection is closed (force_disconnect, or its caller cancels the connect) while the real resolver is busy with
+    lookups that never answer, for one or several configured addresses: afterwards no task is still blocked on it."""
+    import asyncio
+    from unittest.mock import patch
+    from vlib import conntrace, simnet
+
+    async def go(loop):
+        from aioesphomeapi import host_resolver as hr
+        from aioesphomeapi.connection import APIConnection, ConnectionParams
+        from aioesphomeapi.zeroconf import ZeroconfManager
+        from checks.c20 import FakeAsyncZeroconf
+
+        class HangInfo:
+            def __init__(self, *a, **k):
+                pass
+
+            async def async_request(self, zc, timeout):
+                await loop.create_future()
+
+            def ip_addresses_by_version(self, version):
+                return []
+
+        async def hang_getaddrinfo(*a, **k):
+            await loop.create_future()
+        net = simnet.Net(loop)
+        hosts = ["kitchen.local", "printer.example.com", "attic"][:n_addresses]
+        params = ConnectionParams(addresses=hosts, port=6053, password=None, client_info="v", keepalive=20.0,
+                                  zeroconf_manager=ZeroconfManager(), noise_psk=None, expected_name=None)
+        conn = APIConnection(params, lambda e: None, False, None)
+        before = set(asyncio.all_tasks(loop))
+        with net.patched(resolver=False), patch.object(hr, "AsyncServiceInfo", HangInfo), \
+                patch("aioesphomeapi.zeroconf.AsyncZeroconf", FakeAsyncZeroconf), patch.object(loop, "getaddrinfo", hang_getaddrinfo):
+            task = asyncio.ensure_future(conn.start_connection())
+            await simnet.drain(loop)
+            await simnet.advance(loop, by=1.0)
+            if how == "force":
+                conn.force_disconnect()
+            else:
+                task.cancel()
+            await simnet.drain(loop)
+            await simnet.advance(loop, by=1.0)
+            left = [t for t in asyncio.all_tasks(loop) if t not in before and t is not asyncio.current_task() and not t.done()]
+            names = sorted(getattr(t.get_coro(), "__qualname__", repr(t)) for t in left)
+            out = "pending" if not task.done() else "C" if task.cancelled() else "ok" if task.exception() is None else conntrace.exc_name(task.exception())
+            for t in left:
+                t.cancel()
+            conn.force_disconnect()
+            await simnet.drain(loop)
+        return out, names
+    return simnet.run(go)
+
+
 def run(rep, tier, seed):
     connfamily.run(rep, tier, seed, "C08", VFILE, RULE)
+    for noise, stage in ((True, "hello"), (True, "handshake"), (False, "hello")):
+        for exc_kind in ("reset", "timedout", "pipe", "none"):
+            out, closed, timers = handshake_loss_probe(noise, stage, exc_kind)
+            replay = {"kind": "handshake-loss", "noise": noise, "stage": stage, "exc": exc_kind}
+            rep.case(("handshake-loss", noise, stage, exc_kind), True, sample={"probe": replay, "outcome": out, "timers": timers})
+            rep.bump("probe:handshake-loss")
+            where = f"{'noise' if noise else 'plaintext'} connect phase waiting for the device ({stage}), transport lost with {exc_kind}"
+            if out in ("ok", "pending") or not closed:
+                rep.violation("C08/not-closed", f"{where}: finish_connection() {out}, connection closed: {closed}", replay)
+            elif timers:
+                rep.violation("C08/timer-left", f"{where}: the connection is closed but timer(s) are still armed: {timers}", replay)
+    for n in (1, 2, 3):
+        for how in ("force", "cancel"):
+            out, left = resolve_close_probe(n, how)
+            replay = {"kind": "resolve-close", "addresses": n, "how": how}
+            rep.case(("resolve-close", n, how), True, sample={"probe": replay, "outcome": out, "tasks_left": left})
+            rep.bump("probe:resolve-close")
+            if left or out in ("pending", "ok"):
+                rep.violation("C08/task-blocked", f"{n} configured address(es), lookups that never answer, then {how}: start_connection() {out}; task(s) still blocked on the "
+                              f"closed connection: {left}", replay)
     for fault in ("nodelay", "peername"):
         for then in ("nothing", "force"):
             out, closed, socks = socket_fault_probe(fault, then)
@@ -56,6 +171,16 @@ def run(rep, tier, seed):
 def replay(path):
     import json
     d = json.loads(open(path).read())["replay"]
+    if d.get("kind") == "handshake-loss":
+        from vlib import common
+        common.setup_impl_path()
+        print(handshake_loss_probe(d["noise"], d["stage"], d["exc"]))
+        return 0
+    if d.get("kind") == "resolve-close":
+        from vlib import common
+        common.setup_impl_path()
+        print(resolve_close_probe(d["addresses"], d["how"]))
+        return 0
     if d.get("kind") == "socket-fault":
         from vlib import common
         common.setup_impl_path()
